@@ -174,6 +174,42 @@ func %s() {
 `, sc.id, name, sc.call)
 		fam.Instances = append(fam.Instances, Instance{Func: name, Stratum: "sequence:" + sc.id, Desc: sc.id + " then whole-set models on the same builder", Expect: []string{"executed"}})
 	}
+	// the set was extended at its tail by an incremental build and the new rule re-sent before the staged models run
+	for _, wc := range []struct{ id, call string }{
+		{"Mix", "eng.ExecuteMixModel(rb)"},
+		{"Inverse", "eng.ExecuteInverseMixModel(rb)"},
+		{"NSortMConc", "eng.ExecuteNSortMConcurrent(2, 1, rb, true)"},
+		{"NConcMSort", "eng.ExecuteNConcurrentMSort(1, 2, rb, true)"},
+	} {
+		name := "Q_tail_add_resend_then_" + wc.id
+		fmt.Fprintf(&b, `
+// two rules built, a third added below them incrementally and re-sent, then %s
+func %s() {
+	n := 3
+	s := symSal(n)
+	vnd.Assume(vnd.And(s[0] > s[2], s[1] > s[2]))
+	f := allFalse(n)
+	rb := build(2, s[:2], f)
+	must(rb.BuildRuleWithIncremental(oneRule(2, s[2], "")), "incremental build (new rule at the tail)")
+	must(rb.BuildRuleWithIncremental(oneRule(2, s[2], "")), "incremental build (the same rule re-sent)")
+	eng := engine.NewGengine()
+	mark := len(vnd.Trace())
+	err := %s
+	vnd.Event("ret")
+	vnd.Quiesce()
+	vnd.Reach("executed")
+	vnd.Assert(err == nil, "no error")
+	for i := 0; i < n; i++ {
+		vnd.Assert(countSince(mark, sname(i)) == 1, "every rule of the set runs exactly once")
+	}
+	ord := startOrder(vnd.Trace()[mark:], n)
+	if len(ord) == n && %v {
+		vnd.Assert(vnd.And(s[ord[0]] >= s[ord[1]], s[ord[0]] >= s[ord[2]]), "the first stage is the highest-priority rule")
+	}
+}
+`, wc.id, name, wc.call, wc.id == "Mix" || wc.id == "NSortMConc")
+		fam.Instances = append(fam.Instances, Instance{Func: name, Stratum: "sequence:tail-add", Desc: "incremental add at the tail, re-send, then " + wc.id, Expect: []string{"executed"}})
+	}
 	finishFamily(fam, pkg, b.String())
 	return fam, nil
 }
